@@ -34,6 +34,11 @@ MODES = [None, "xml", "html", "ascii"]
 # "the three encodings treated as smart-quote carriers" (property text; dammit.py:924-928)
 DOCUMENTED_CARRIERS = ["windows-1252", "iso-8859-1", "iso-8859-2"]
 NON_CARRIERS = ["latin-1", "cp1252", "iso-8859-5"]
+# the documented plain substitutes (bs4 4.13.0 source documentation of MS_CHARS_TO_ASCII, keys 0x80-0x9F), pinned here
+DOCUMENTED_ASCII = {0x80: "EUR", 0x81: " ", 0x82: ",", 0x83: "f", 0x84: ",,", 0x85: "...", 0x86: "+", 0x87: "++", 0x88: "^", 0x89: "%",
+                    0x8A: "S", 0x8B: "<", 0x8C: "OE", 0x8D: "?", 0x8E: "Z", 0x8F: "?", 0x90: "?", 0x91: "'", 0x92: "'", 0x93: '"',
+                    0x94: '"', 0x95: "*", 0x96: "-", 0x97: "--", 0x98: "~", 0x99: "(TM)", 0x9A: "s", 0x9B: ">", 0x9C: "oe", 0x9D: "?",
+                    0x9E: "z", 0x9F: "Y"}
 XML_REF = re.compile(r"&#x([0-9A-Fa-f]+);\Z")
 HTML_REF = re.compile(r"&#?\w+;\Z")
 
@@ -118,8 +123,8 @@ def smart_oracle(b: int, enc: str, mode, out):
     from bs4.dammit import UnicodeDammit
     ch = cp1252_char(b)
     if mode == "ascii":
-        want = UnicodeDammit.MS_CHARS_TO_ASCII.get(bytes([b]))
-        ok = want is not None and out == want and out != "" and all(" " <= c <= "~" for c in out)
+        want = DOCUMENTED_ASCII[b]
+        ok = out == want
         return ok, f"documented ASCII substitute {want!r}"
     if mode is None:
         if enc == "windows-1252":
@@ -164,6 +169,49 @@ def is_scalar(c):
 def real_detwingle(data: bytes):
     from bs4.dammit import UnicodeDammit
     return UnicodeDammit.detwingle(data)
+
+
+def parses_as_text_with_embedded_bytes(data: bytes, conv) -> bool:
+    """Is `data` a concatenation of well-formed UTF-8 characters and single embeddable Windows-1252 bytes?  (The two
+    kinds cannot be confused: an embeddable byte is never a UTF-8 lead byte or an ASCII byte.)  Written with CPython's
+    decoder only."""
+    i, n = 0, len(data)
+    while i < n:
+        b = data[i]
+        if b < 0x80:
+            i += 1
+            continue
+        size = 2 if 0xC2 <= b <= 0xDF else 3 if 0xE0 <= b <= 0xEF else 4 if 0xF0 <= b <= 0xF4 else 0
+        if size:
+            if py_utf8_decode(data[i:i + size]) is None or len(data[i:i + size]) < size:
+                return False
+            i += size
+        elif b in conv:
+            i += 1
+        else:
+            return False
+    return True
+
+
+def replaced_only(data: bytes, out: bytes, conv) -> bool:
+    """`out` is `data` with some embeddable bytes replaced by the UTF-8 of their Windows-1252 character, nothing else
+    changed (dynamic programme over the two strings; independent of how the scan walks)."""
+    reach = {(0, 0)}
+    for i, b in enumerate(data):
+        nxt = set()
+        for (pi, po) in reach:
+            if pi != i:
+                continue
+            if po < len(out) and out[po] == b:
+                nxt.add((i + 1, po + 1))
+            if b in conv:
+                rep = cp1252_char(b).encode("utf-8")
+                if out[po:po + len(rep)] == rep:
+                    nxt.add((i + 1, po + len(rep)))
+        reach = nxt
+        if not reach:
+            return False
+    return (len(data), len(out)) in reach
 
 
 def py_utf8_decode(data: bytes):
@@ -616,6 +664,7 @@ def run(ctx: Ctx):
                           stream="unescape-correspondence", no_failing_input=True)
 
     # ---------------- B. random whole inputs through UnicodeDammit --------------------------------------------------------
+    ulines2, uimpl2, ucases2 = [], [], []
     r = ctx.rng("smart-random")
     nB = ctx.n(6000, 60000)
     for i in range(nB):
@@ -642,6 +691,47 @@ def run(ctx: Ctx):
                 limited(ctx, f"whole input: the conversion of byte(s) {[hex(b) for b in badb]} does not denote their Windows-1252 character",
                         case=case, expected="each byte 0x80-0x9F replaced by a reference to its cp1252 character", observed=u,
                         stream="smart-random")
+            # the whole-string clause: un-escaping the result gives the characters (inputs without a literal '&' whose
+            # bytes 0x80-0x9F are all defined in Windows-1252)
+            if mode in ("xml", "html") and 0x26 not in data and all(cp1252_char(b) is not None for b in data if 0x80 <= b <= 0x9F) and u is not None:
+                meant = "".join(cp1252_char(b) if 0x80 <= b <= 0x9F else bytes([b]).decode(enc) for b in data)
+                ctx.count("smart-random:unescape-whole")
+                if html.unescape(u) != meant:
+                    limited(ctx, "un-escaping the converted text does not give the characters of the input", case=case,
+                            expected=meant, observed=html.unescape(u), stream="smart-random")
+                ulines2.append(f"c19 unescapeall {S(u)}"); uimpl2.append(S(html.unescape(u))); ucases2.append({"op": "unescapeall", "text": u})
+    rep = drv.ask(ulines2)
+    for l, a, m, c in zip(ulines2, uimpl2, rep, ucases2):
+        if a != m:
+            ctx.corr_disagreements += 1
+            limited(ctx, "Lean unescapeAll disagrees with html.unescape on a converted text", case=c | {"line": l}, observed=a, model=m,
+                    stream="unescape-correspondence", no_failing_input=True)
+
+    # ---------------- B2. random constructor calls: byte-order marks, declarations, tags, spellings, two known encodings ----
+    r = ctx.rng("ud-random")
+    for i in range(ctx.n(4000, 40000)):
+        c = rand_call(r)
+        while c["k"] != "ud":
+            c = rand_call(r)
+        data, known, mode = bytes(c["b"]), c["known"], c["mode"]
+        try:
+            res = list(real_dammit(data, known, mode))
+        except Exception as e:
+            limited(ctx, f"the constructor raised {type(e).__name__}", stream="ud-random", case={"op": "ud", **c}, expected="a result", observed=repr(e))
+            continue
+        nontriv = expected_carrier(known[0]) and mode is not None and any(0x80 <= x <= 0x9F for x in strip_bom_oracle(data))
+        ctx.case(("B2", json.dumps(c, sort_keys=True)) if nontriv else None)
+        ctx.count("ud-random:" + ("carrier-spelling+mode+smart" if nontriv else "other"))
+        if strip_bom_oracle(data) != data:
+            ctx.count("ud-random:bom-stripped")
+        if b"<" in data:
+            ctx.count("ud-random:has-lt")
+        if declared_of(data):
+            ctx.count("ud-random:declares-encoding")
+        bad = ud_call_oracle(c, res, piece)
+        if bad:
+            limited(ctx, bad[0], stream="ud-random", case={"op": "ud", **c}, expected=bad[1], observed=res[0])
+        lines.append(dammit_line(data, known, mode)); impl.append(show_dammit(*res)); cases.append({"op": "ud", **c})
     # correspondence for A + B
     rep = drv.ask(lines)
     nd = 0
@@ -781,7 +871,20 @@ def run(ctx: Ctx):
     for i in range(ctx.n(4000, 50000)):
         data = rand_garbage(r)
         try:
-            det_case(data, "detwingle-garbage")
+            out = det_case(data, "detwingle-garbage")
+            # the all-inputs clauses, directly on the real code
+            again = real_detwingle(out)
+            if again != out:
+                limited(ctx, "detwingle is not idempotent", stream="detwingle-garbage", case={"op": "detwingle", "bytes": list(data), "clause": "idempotent"},
+                        expected=out.hex(), observed=again.hex())
+            if not replaced_only(data, out, conv):
+                limited(ctx, "detwingle altered something other than an embedded Windows-1252 byte", stream="detwingle-garbage",
+                        case={"op": "detwingle", "bytes": list(data), "clause": "replaced-only"}, expected="input with embeddable bytes replaced", observed=out.hex())
+            valid = py_utf8_decode(out) is not None
+            if valid != parses_as_text_with_embedded_bytes(data, conv):
+                limited(ctx, "detwingle: output validity does not match 'input is UTF-8 text with embedded Windows-1252 bytes'", stream="detwingle-garbage",
+                        case={"op": "detwingle", "bytes": list(data), "clause": "valid-iff"}, expected=f"valid UTF-8: {not valid}", observed=out.hex())
+            ctx.count("detwingle:garbage:" + ("output-valid" if valid else "output-invalid"))
         except Exception as e:  # the real code is total on bytes; anything else is a finding
             ctx.violation(f"detwingle raised {type(e).__name__} on a byte string", case={"op": "detwingle", "bytes": list(data)},
                           expected="a bytes result", observed=repr(e), stream="detwingle-garbage")
@@ -868,6 +971,12 @@ def replay(path):
         out = real_detwingle(data)
         print(f"detwingle({data!r}) = {out!r}")
         print("property demands (hex):", v.get("expected"), " observed (hex):", out.hex())
+        if c.get("clause"):
+            conv = convertible_bytes()
+            ok = (real_detwingle(out) == out and replaced_only(data, out, conv)
+                  and (py_utf8_decode(out) is not None) == parses_as_text_with_embedded_bytes(data, conv))
+            print("all-input clauses (idempotent, replaced-only, valid-iff) hold:", ok)
+            return 0 if ok else 1
         if v.get("expected") is not None and not v.get("no_failing_input_found"):
             return 0 if out.hex() == v["expected"] else 1
         return 1
